@@ -820,6 +820,16 @@ func ruleInstalledAddrFresh(c *Ctx, rule string) {
 				c.Undecided(rule, fname(fn), target.Name()+" address", w.instrPos(cs), "cannot identify the storage the installed IP is read from: "+w.key(ip))
 				continue
 			}
+			// the literal is built by a small helper on a by-value copy of the decoded
+			// PeerAddress (peer.UDPAddr()): the copy shares the IP bytes with the value it was
+			// made from — judge the storage that value was loaded from at the call
+			if b, isAl := base.(*ssa.Alloc); isAl && b.Parent() != fn {
+				if hc, _ := callOf(w.resolveLoad(cs.Common().Args[argIdx])); hc != nil {
+					if o := w.byValueOrigin(b, hc); o != nil {
+						base = rootAddr(o)
+					}
+				}
+			}
 			switch b := base.(type) {
 			case *ssa.Alloc:
 				if b.Parent() == fn {
